@@ -50,7 +50,7 @@
      for the implementation model. *)
 From Coq Require Import List NArith ZArith Bool Arith String Ascii.
 Import ListNotations.
-From Cao Require Import CardAst RefSem RefScope RefSemProofs C06Proofs C06Wf.
+From Cao Require Import CardAst RefSem RefScope RefSemProofs C06Proofs C06Wf C06Check.
 
 (* ---- programs for the examples ---- *)
 Local Open Scope string_scope.
@@ -294,6 +294,16 @@ Example C06_ex_same_position_in_two_modules :
             [])
     [n_log1]) = Some [TrStr (s "t2"); TrStr (s "t1"); TrStr (s "t2")].
 Proof. vm_compute. reflexivity. Qed.
+
+(* the identity oracle of the differential check (C06Check.identity_ok, independent of RefSem): the
+   tag entry after a site marker must be the expected one *)
+Example C06_ex_identity_oracle :
+  let expect := [(s "w1", s "t1"); (s "w2", s "t2")] in
+  C06Check.identity_ok expect [s "w1"; s "t1"; s "t7"; s "w2"; s "t2"] = Some true /\
+  C06Check.identity_ok expect [s "w1"; s "t1"; s "w2"; s "t1"] = Some false /\      (* the other body ran *)
+  C06Check.identity_ok expect [s "w1"; s "t1"; s "w2"] = Some false /\              (* no body ran *)
+  C06Check.identity_ok expect [s "w3"; s "t1"] = None.                              (* unknown site *)
+Proof. vm_compute. repeat split; reflexivity. Qed.
 
 (* all example programs are in the class the differential check covers *)
 Example C06_examples_well_scoped :
